@@ -289,7 +289,21 @@ impl<'t> Gen<'t> {
             if s.depth > 0 { 1 } else { 0 },  // 15 die (rare, nested)
         ];
         match self.t.weighted(&w) {
-            0 => ops.push(Op::SayLit(self.lit())),
+            0 => {
+                if self.t.chance(1, 14) {
+                    // a text of an exact byte length around a power of two
+                    // (somebody's fixed-size buffer)
+                    let base = [64usize, 128, 256, 512, 1024, 4096, 8192][self.t.draw(7) as usize];
+                    let len = base - 1 + self.t.draw(3) as usize;
+                    let mut text = self.lit();
+                    while text.len() < len {
+                        text.push(if (len - text.len()) % 7 == 0 { ' ' } else { 'x' });
+                    }
+                    ops.push(Op::SayLit(text))
+                } else {
+                    ops.push(Op::SayLit(self.lit()))
+                }
+            }
             1 => ops.push(Op::Listen(Some(self.dest(s)))),
             2 => ops.push(Op::SayVar(self.sayable(s))),
             3 => ops.push(Op::Listen(None)),
